@@ -13,47 +13,8 @@ use crate::cases::*;
 use crate::dsl::*;
 use crate::interp::*;
 use serde_json::json;
-use std::cell::RefCell;
-use std::collections::BTreeMap;
-use std::rc::Rc;
 
-#[derive(Default)]
-struct Trace {
-    /// per completed iteration: hash of its history
-    iter_hashes: Vec<u64>,
-    /// (tid, pc) -> iterations (1-based) that invoked it
-    reached: BTreeMap<(u8, u16), Vec<usize>>,
-    /// longest decision path of a completed iteration
-    max_path: usize,
-}
-
-fn trace_run(p: &Program, cfg: &Config) -> (LoomRun, Trace) {
-    let tr = Rc::new(RefCell::new(Trace::default()));
-    let t2 = tr.clone();
-    let run = run_loom(p, cfg, move |h, _tids, path| {
-        let mut t = t2.borrow_mut();
-        t.max_path = t.max_path.max(path.len());
-        let it = t.iter_hashes.len() + 1;
-        t.iter_hashes.push(hist_hash(h));
-        for e in h {
-            if e.kind == HK::Inv {
-                t.reached.entry((e.tid, e.pc)).or_default().push(it);
-            }
-        }
-    });
-    // the failing iteration (if any) also reached some ops
-    if let Some(h) = &run.failing_history {
-        let mut t = tr.borrow_mut();
-        let it = t.iter_hashes.len() + 1;
-        for e in h {
-            if e.kind == HK::Inv {
-                t.reached.entry((e.tid, e.pc)).or_default().push(it);
-            }
-        }
-    }
-    let t = std::mem::take(&mut *tr.borrow_mut());
-    (run, t)
-}
+use crate::trace::*;
 
 /// The probe: a fixed small model whose complete behaviour (sequence of iteration histories) is
 /// known; run after every faulty model run to see that the next run starts clean.
